@@ -222,6 +222,16 @@ fn to_st(s: &Sx) -> Option<St> {
     Some(match (h, rest) {
         ("assign", [vars, vals]) => St::Assign(exprs(list(vars)?)?, exprs(list(vals)?)?),
         ("local", [ns, vals]) => St::Local(names(ns)?, exprs(list(vals)?)?),
+        ("const", [ns, vals]) => St::Const(
+            list(ns)?
+                .iter()
+                .map(|p| match list(p)? {
+                    [name, t] => Some((atom(name)?.to_owned(), if atom(t) == Some("-") { None } else { Some(to_ty(t)?) })),
+                    _ => None,
+                })
+                .collect::<Option<_>>()?,
+            exprs(list(vals)?)?,
+        ),
         ("localt", [ns, vals]) => St::LocalT(
             list(ns)?
                 .iter()
@@ -421,6 +431,11 @@ fn st_str(s: &St) -> String {
     match s {
         St::Assign(a, v) => format!("(assign {} {})", list(a), list(v)),
         St::Local(n, v) => format!("(local ({}) {})", n.join(" "), list(v)),
+        St::Const(n, v) => format!(
+            "(const ({}) {})",
+            n.iter().map(|(name, t)| format!("({} {})", name, t.as_ref().map_or("-".to_owned(), ty_str))).collect::<Vec<_>>().join(" "),
+            list(v)
+        ),
         St::LocalT(n, v) => format!(
             "(localt ({}) {})",
             n.iter().map(|(name, t)| format!("({} {})", name, t.as_ref().map_or("-".to_owned(), ty_str))).collect::<Vec<_>>().join(" "),
